@@ -259,7 +259,7 @@ Lemma r_get_spec s : r_wf s ->
   match r_view s with
   | [] => r_get s = (s, Err EEof)
   | b :: t => exists s', r_get s = (s', Ok (b2z b)) /\ r_view s' = t /\ r_wf s' /\ r_rem s' = r_rem s
-                         /\ r_bitpos s' = r_bitpos s + 1 /\ r_file s' = r_file s
+                         /\ r_bitpos s' = r_bitpos s + 1 /\ r_file s' = r_file s /\ (t = [] -> r_nb s' = 7)
   end.
 Proof.
   destruct s as [f off nb cur rem]. unfold r_wf, r_view, r_get, r_bitpos, to_bit_offset. cbn [r_nb r_off r_cur r_file r_rem].
@@ -278,7 +278,8 @@ Proof.
     + repeat split; lia.
   - eexists. split; [reflexivity|]. cbn [r_nb r_off r_cur r_file r_rem].
     replace (Z.to_nat (nb - 1 + 1)) with (Z.to_nat nb) by lia.
-    repeat split; lia.
+    repeat split; try lia.
+    intros K. exfalso. replace (Z.to_nat nb) with (S (Z.to_nat (nb - 1))) in K by lia. cbn in K. discriminate.
 Qed.
 
 Lemma r_read_bit_unb s : r_rem s = None -> r_read_bit s = r_get s.
@@ -291,7 +292,7 @@ Proof.
   induction l; intros s rest W R V.
   - exists s. cbn in *. repeat split; try assumption; try constructor; try apply W; lia.
   - pose proof (r_get_spec s W) as G. rewrite V in G. cbn [app] in G.
-    destruct G as [s1 [G1 [G2 [G3 [G4 [G5 G6]]]]]].
+    destruct G as [s1 [G1 [G2 [G3 [G4 [G5 [G6 _]]]]]]].
     destruct (IHl s1 rest G3 ltac:(congruence) G2) as [s' [F [W' [R' [V' [P' F']]]]]].
     exists s'. repeat split; try assumption; try apply W'.
     + econstructor; [|exact F]. rewrite r_read_bit_unb by assumption. exact G1.
@@ -642,7 +643,7 @@ Qed.
 
 (* ------------------------------------------------ the two readers agree *)
 Definition sim_core (r : rst) (d : dst) : Prop :=
-  r_wf r /\ d_wf d /\ r_view r = d_view d /\ r_bitpos r = d_bitpos d.
+  r_wf r /\ d_wf d /\ r_view r = d_view d /\ r_bitpos r = d_bitpos d /\ (r_view r = [] -> r_nb r = 7).
 Definition sim (r : rst) (d : dst) : Prop := sim_core r d /\ r_rem r = None.
 Definition simb (r : rst) (d : dst) : Prop :=
   sim_core r d /\ exists k, r_rem r = Some k /\ d_left d = Z.max 0 k.
@@ -711,18 +712,19 @@ End Param.
 
 Lemma sim_bit r d : sim r d -> rel_bit sim (r_read_bit r) (d_read_bit d).
 Proof.
-  intros [[Wr [Wd [V P]]] R]. rewrite r_read_bit_unb by assumption.
+  intros [[Wr [Wd [V [P A]]]] R]. rewrite r_read_bit_unb by assumption.
   pose proof (r_get_spec r Wr) as Gr. pose proof (d_read_bit_spec d Wd) as Gd. rewrite <- V in Gd.
   destruct (r_view r) as [|b t].
   - rewrite Gr, Gd. cbn. split; [split; [reflexivity|assumption]|exact I].
-  - destruct Gr as [r' [E1 [V1 [W1 [R1 [P1 F1]]]]]]. destruct Gd as [d' [E2 [V2 [W2 [L2 [P2 F2]]]]]].
+  - destruct Gr as [r' [E1 [V1 [W1 [R1 [P1 [F1 A1]]]]]]]. destruct Gd as [d' [E2 [V2 [W2 [L2 [P2 F2]]]]]].
     rewrite E1, E2. cbn. split; [|apply b2z_01].
-    split; [reflexivity|]. split; [|congruence]. repeat split; try assumption; try apply W1; try apply W2; try congruence; lia.
+    split; [reflexivity|]. split; [|congruence]. repeat split; try assumption; try apply W1; try apply W2; try congruence; try lia.
+    intros K. apply A1. congruence.
 Qed.
 
 Lemma simb_bit r d : simb r d -> rel_bit simb (r_read_bit r) (d_read_bitb d).
 Proof.
-  intros [[Wr [Wd [V P]]] [k [R L]]].
+  intros [[Wr [Wd [V [P A]]]] [k [R L]]].
   destruct (Z_le_gt_dec k 0) as [K|K].
   - rewrite (r_read_past_end _ _ R K). rewrite d_read_past_end by lia.
     cbn. split; [|right; reflexivity]. split; [reflexivity|].
@@ -735,18 +737,19 @@ Proof.
     change (r_view r0) with (r_view r) in Gr. change (d_view d0) with (d_view d) in Gd. rewrite <- V in Gd.
     destruct (r_view r) as [|b t].
     + rewrite Gr, Gd. cbn. split; [split; [reflexivity|exact P]|exact I].
-    + destruct Gr as [r' [E1 [V1 [W1 [R1 [P1 F1]]]]]]. destruct Gd as [d' [E2 [V2 [W2 [L2 [P2 F2]]]]]].
+    + destruct Gr as [r' [E1 [V1 [W1 [R1 [P1 [F1 A1]]]]]]]. destruct Gd as [d' [E2 [V2 [W2 [L2 [P2 F2]]]]]].
       rewrite E1, E2. cbn. split; [|apply b2z_01].
       split; [reflexivity|]. split.
       * repeat split; try assumption; try apply W1; try apply W2; try congruence.
-        change (r_bitpos r0) with (r_bitpos r) in P1. change (d_bitpos d0) with (d_bitpos d) in P2. lia.
+        -- change (r_bitpos r0) with (r_bitpos r) in P1. change (d_bitpos d0) with (d_bitpos d) in P2. lia.
+        -- intros K0. apply A1. congruence.
       * exists (k - 1). split; [exact R1|]. rewrite L2. cbn [d0 d_set_left d_left]. lia.
 Qed.
 
 Lemma sim_pos r d : sim r d -> r_bitpos r = d_bitpos d.
-Proof. intros [[_ [_ [_ P]]] _]. exact P. Qed.
+Proof. intros [[_ [_ [_ [P _]]]] _]. exact P. Qed.
 Lemma simb_pos r d : simb r d -> r_bitpos r = d_bitpos d.
-Proof. intros [[_ [_ [_ P]]] _]. exact P. Qed.
+Proof. intros [[_ [_ [_ [P _]]]] _]. exact P. Qed.
 
 Lemma step_rel (Rel : rst -> dst -> Prop) m1 m2 k1 k2 :
   (forall r d, Rel r d -> r_bitpos r = d_bitpos d) ->
@@ -788,11 +791,61 @@ Proof.
     + exact H.
 Qed.
 
+Lemma app_inv_len {A} (a a' b b' : list A) : length a = length a' -> a ++ b = a' ++ b' -> b = b'.
+Proof.
+  revert a'. induction a as [|y a IH]; intros a' L E; destruct a' as [|x a']; cbn in L, E.
+  - exact E.
+  - discriminate L.
+  - discriminate L.
+  - inversion E; subst. apply (IH a'); [lia|assumption].
+Qed.
+
+Lemma d_read_byte_view d : d_wf d ->
+  d_view (d_read_byte d) = bytes_bits (skipn (Z.to_nat (d_pos d)) (d_file d)) /\
+  d_wf (d_read_byte d) /\ d_bitpos (d_read_byte d) = 8 * d_pos d.
+Proof.
+  destruct d as [f pos nb cur left rec]. unfold d_wf, d_read_byte, d_view, d_bitpos, d_tell, to_bit_offset.
+  cbn [d_nb d_pos d_cur d_file d_left d_rec]. intros [Hnb Hpos].
+  destruct (nth_z f pos) as [b|] eqn:En; cbn [d_nb d_pos d_cur d_file d_left d_rec fst snd].
+  - rewrite (nth_z_some _ _ _ Hpos En). repeat split; try lia; reflexivity.
+  - rewrite (nth_z_none _ _ Hpos En). repeat split; try lia; reflexivity.
+Qed.
+
+Lemma align_rel r d : sim r d -> rel_res sim (r_align r) (d_byte_align d, Ok 0).
+Proof.
+  intros [[Wr [Wd [V [P A]]]] R].
+  assert (Nb : r_nb r = d_nb d).
+  { unfold r_bitpos, d_bitpos, d_tell, to_bit_offset in P. cbn [fst snd] in P.
+    destruct Wr as [Wr1 Wr2], Wd as [Wd1 Wd2]. destruct (d_cur d); lia. }
+  unfold r_align, d_byte_align. rewrite <- Nb.
+  destruct (r_nb r =? 7) eqn:E.
+  - cbn. split; [reflexivity|]. split; [|assumption]. repeat split; try assumption; try apply Wr; try apply Wd.
+  - destruct (d_read_byte_view d Wd) as [DV [DW DP]].
+    unfold r_view in V, A. destruct (r_cur r) as [c|] eqn:Ec; [|specialize (A eq_refl); lia].
+    unfold d_view in V. destruct (d_cur d) as [c'|] eqn:Ec'.
+    2:{ exfalso. apply (f_equal (@length bool)) in V. rewrite app_length, nbits_list_length in V. cbn in V.
+        destruct Wr as [Wr1 Wr2]. lia. }
+    assert (Vr : r_view r = nbits_list (Z.to_nat (r_nb r + 1)) c ++ bytes_bits (skipn (Z.to_nat (r_off r)) (r_file r))).
+    { unfold r_view. rewrite Ec. reflexivity. }
+    destruct (r_feeds_unb _ _ _ Wr R Vr) as [r' [F [W' [R' [V' [P' F']]]]]].
+    pose proof (g_bitlist_feeds _ _ _ _ F) as G. rewrite nbits_list_length in G, P'.
+    unfold r_read_bitarray. rewrite G. cbn [zero_val].
+    assert (T : bytes_bits (skipn (Z.to_nat (r_off r)) (r_file r)) = bytes_bits (skipn (Z.to_nat (d_pos d)) (d_file d))).
+    { eapply app_inv_len; [|exact V]. rewrite !nbits_list_length. rewrite Nb. reflexivity. }
+    cbn. split; [reflexivity|]. split; [|assumption].
+    assert (Pd : d_bitpos d = 8 * (d_pos d - 1) + 7 - d_nb d).
+    { unfold d_bitpos, d_tell, to_bit_offset. rewrite Ec'. cbn [fst snd]. lia. }
+    assert (Pe : r_bitpos r' = d_bitpos (d_read_byte d)).
+    { rewrite P', DP, P, Pd. destruct Wr as [Wr1 Wr2]. lia. }
+    repeat split; try assumption; try apply W'; try apply DW.
+    + rewrite V', DV. exact T.
+    + intros _. unfold r_bitpos, to_bit_offset in Pe. rewrite DP in Pe. destruct W' as [W1 W2]. lia.
+Qed.
+
 Fixpoint blocks_nonneg (p : list rop) : Prop :=
   match p with
   | [] => True
   | PBlock len _ :: t => 0 <= len /\ blocks_nonneg t
-  | PAlign :: t => False
   | _ :: t => blocks_nonneg t
   end.
 
@@ -812,7 +865,7 @@ Proof.
       unfold r_read_uint, d_read_uint. rewrite F. apply par_uint; [exact sim_pos|exact sim_bit|assumption].
     + apply (step_rel sim); [exact sim_pos| |intros; apply IH; assumption].
       unfold r_read_sint, d_read_sint. rewrite F. apply par_sint; [exact sim_pos|exact sim_bit|assumption].
-    + contradiction.
+    + apply (step_rel sim); [exact sim_pos|apply align_rel; assumption|intros; apply IH; assumption].
     + destruct B as [Hlen B]. destruct S as [C R].
       apply (step_rel simb); [exact simb_pos| |].
       * unfold r_block_begin. rewrite R. cbn. split; [reflexivity|].
@@ -834,6 +887,348 @@ Qed.
 Lemma readers_agree f p : blocks_nonneg p -> r_run p (r_init f 0) = d_run p (d_init f 0).
 Proof. intros B. apply run_agree; [assumption|apply init_sim]. Qed.
 
+(* ------------------------------------------------------------------ writer *)
+Lemma put_bit_testbit c nb b i : 0 <= nb -> 0 <= i ->
+  Z.testbit (put_bit c nb b) i = if i =? nb then b else Z.testbit c i.
+Proof.
+  intros Hnb Hi. unfold put_bit. rewrite Z.shiftl_1_l.
+  destruct b.
+  - rewrite Z.lor_spec, Z.land_spec, Z.lnot_spec, Z.pow2_bits_eqb by lia.
+    destruct (Z.eqb_spec nb i); destruct (Z.eqb_spec i nb); try lia; destruct (Z.testbit c i); reflexivity.
+  - rewrite Z.land_spec, Z.lnot_spec, Z.pow2_bits_eqb by lia.
+    destruct (Z.eqb_spec nb i); destruct (Z.eqb_spec i nb); try lia; destruct (Z.testbit c i); reflexivity.
+Qed.
+
+Definition w_wf (s : wst) : Prop := 0 <= w_nb s <= 7 /\ 0 <= w_pos s <= flen (w_file s).
+
+Lemma bytes_bits_app a b : bytes_bits (a ++ b) = bytes_bits a ++ bytes_bits b.
+Proof. unfold bytes_bits. apply flat_map_app. Qed.
+
+Lemma fwrite_prefix f pos c : 0 <= pos <= flen f ->
+  firstn (Z.to_nat (pos + 1)) (fwrite f pos c) = firstn (Z.to_nat pos) f ++ [c] /\
+  flen (fwrite f pos c) = Z.max (flen f) (pos + 1) /\
+  firstn (Z.to_nat pos) (fwrite f pos c) = firstn (Z.to_nat pos) f.
+Proof.
+  intros H. unfold fwrite, flen in *. destruct (pos <=? Z.of_nat (length f)) eqn:E; [|lia].
+  assert (L : length (firstn (Z.to_nat pos) f) = Z.to_nat pos) by (apply firstn_length_le; lia).
+  split; [|split].
+  - replace (Z.to_nat (pos + 1)) with (length (firstn (Z.to_nat pos) f) + 1)%nat by lia.
+    rewrite firstn_app_2. reflexivity.
+  - rewrite app_length, L. cbn [length]. rewrite skipn_length. lia.
+  - replace (Z.to_nat pos) with (length (firstn (Z.to_nat pos) f) + 0)%nat at 1 by lia.
+    rewrite firstn_app_2. cbn. apply app_nil_r.
+Qed.
+
+Lemma w_put_spec b s : w_wf s ->
+  w_view (w_put b s) = w_view s ++ [b] /\ w_wf (w_put b s) /\
+  w_bitpos (w_put b s) = w_bitpos s + 1 /\ w_rem (w_put b s) = w_rem s.
+Proof.
+  destruct s as [f pos nb cur rem]. unfold w_wf, w_put, w_view, w_bitpos, to_bit_offset.
+  cbn [w_file w_pos w_nb w_cur w_rem]. intros [Hnb Hpos].
+  set (c' := put_bit cur nb b).
+  assert (Hhi : nbits_list (Z.to_nat (7 - nb)) (Z.shiftr c' (nb + 1)) = nbits_list (Z.to_nat (7 - nb)) (Z.shiftr cur (nb + 1))).
+  { apply nbits_list_ext. intros i Hi. rewrite !Z.shiftr_spec by lia. unfold c'. rewrite put_bit_testbit by lia.
+    destruct (Z.eqb_spec (i + (nb + 1)) nb); [lia|reflexivity]. }
+  assert (Hlo : Z.testbit c' nb = b).
+  { unfold c'. rewrite put_bit_testbit by lia. rewrite Z.eqb_refl. reflexivity. }
+  destruct (nb - 1 <? 0) eqn:E.
+  - assert (nb = 0) by lia. subst nb. unfold w_write_byte. cbn [w_file w_pos w_nb w_cur w_rem].
+    destruct (fwrite_prefix f pos c' Hpos) as [F1 [F2 F3]].
+    split; [|repeat split; lia].
+    rewrite F1, bytes_bits_app.
+    replace (Z.to_nat (7 - 7)) with 0%nat by reflexivity. cbn [nbits_list]. rewrite app_nil_r.
+    rewrite <- app_assoc. f_equal.
+    unfold bytes_bits. cbn [flat_map]. rewrite app_nil_r. unfold bits8.
+    change 8%nat with (S 7). rewrite nbits_list_snoc. rewrite Hlo.
+    replace (Z.to_nat (7 - 0)) with 7%nat in * by reflexivity. replace (0 + 1) with 1 in * by reflexivity.
+    rewrite Hhi. reflexivity.
+  - cbn [w_file w_pos w_nb w_cur w_rem]. split; [|repeat split; lia].
+    rewrite <- app_assoc. f_equal.
+    replace (Z.to_nat (7 - (nb - 1))) with (S (Z.to_nat (7 - nb))) by lia.
+    rewrite nbits_list_snoc. replace (nb - 1 + 1) with nb by lia.
+    rewrite Z.shiftr_shiftr by lia. rewrite Z.shiftr_spec by lia. replace (0 + nb) with nb by lia.
+    rewrite Hlo, Hhi. reflexivity.
+Qed.
+
+Definition w_writes (m : wst * option err) (s : wst) (l : list bool) : Prop :=
+  exists s', m = (s', None) /\ w_view s' = w_view s ++ l /\ w_wf s' /\ w_rem s' = None
+             /\ w_bitpos s' = w_bitpos s + Z.of_nat (length l).
+
+Lemma w_write_bits_unb : forall l s, w_wf s -> w_rem s = None -> w_writes (w_write_bits l s) s l.
+Proof.
+  induction l; intros s W R.
+  - exists s. cbn. rewrite app_nil_r. repeat split; try assumption; try apply W; lia.
+  - cbn [w_write_bits]. unfold w_write_bit. rewrite R.
+    destruct (w_put_spec a s W) as [V1 [W1 [P1 R1]]].
+    destruct (IHl (w_put a s) W1 ltac:(congruence)) as [s' [E [V' [W' [R' P']]]]].
+    exists s'. split; [exact E|]. repeat split; try assumption; try apply W'.
+    + rewrite V', V1, <- app_assoc. reflexivity.
+    + rewrite P', P1. cbn [length]. lia.
+Qed.
+
+Lemma w_nbits_writes n v s : w_wf s -> w_rem s = None -> 0 <= n -> 0 <= v < 2 ^ n ->
+  w_writes (w_write_nbits n v s) s (nbits_list (Z.to_nat n) v).
+Proof.
+  intros W R Hn Hv. unfold w_write_nbits.
+  destruct ((v <? 0) || (bit_length v >? n)) eqn:E.
+  - apply nbits_out_of_range in E. lia.
+  - apply w_write_bits_unb; assumption.
+Qed.
+Lemma w_uint_writes v s : w_wf s -> w_rem s = None -> 0 <= v ->
+  w_writes (w_write_uint v s) s (uint_bits v).
+Proof.
+  intros W R Hv. unfold w_write_uint. destruct (v <? 0) eqn:E; [lia|]. apply w_write_bits_unb; assumption.
+Qed.
+Lemma w_sint_writes v s : w_wf s -> w_rem s = None ->
+  w_writes (w_write_sint v s) s (sint_bits v).
+Proof.
+  intros W R. unfold w_write_sint, sint_bits.
+  destruct (w_uint_writes (Z.abs v) s W R ltac:(lia)) as [s1 [E [V1 [W1 [R1 P1]]]]].
+  rewrite E. destruct (v =? 0).
+  - exists s1. rewrite app_nil_r. repeat split; try assumption; apply W1.
+  - destruct (w_write_bits_unb [v <? 0] s1 W1 R1) as [s2 [E2 [V2 [W2 [R2 P2]]]]].
+    cbn [w_write_bits] in E2. destruct (w_write_bit (v <? 0) s1) as [s2' [e|]] eqn:E3; [discriminate|].
+    inversion E2; subst. exists s2. split; [reflexivity|]. repeat split; try assumption; try apply W2.
+    + rewrite V2, V1, app_assoc. reflexivity.
+    + rewrite P2, P1, app_length, Nat2Z.inj_add. cbn [length]. lia.
+Qed.
+Lemma w_bitarray_writes n (l : list bool) s : w_wf s -> w_rem s = None -> Z.of_nat (length l) <= n ->
+  w_writes (w_write_bitarray n l s) s (bitarray_bits n l) /\ Z.of_nat (length (bitarray_bits n l)) = n.
+Proof.
+  intros W R H. unfold w_write_bitarray. destruct (Z.of_nat (length l) >? n) eqn:E; [lia|].
+  split; [apply w_write_bits_unb; assumption|].
+  unfold bitarray_bits. rewrite app_length, repeat_length. lia.
+Qed.
+Lemma w_each_byte_writes : forall l s, w_wf s -> w_rem s = None -> Forall (fun b => 0 <= b < 256) l ->
+  w_writes (w_write_each_byte l s) s (flat_map (nbits_list 8) l).
+Proof.
+  induction l; intros s W R H.
+  - exists s. cbn. rewrite app_nil_r. repeat split; try assumption; try apply W; lia.
+  - inversion H; subst. cbn [w_write_each_byte flat_map].
+    destruct (w_nbits_writes 8 a s W R ltac:(lia) ltac:(change (2 ^ 8) with 256; lia)) as [s1 [E [V1 [W1 [R1 P1]]]]].
+    rewrite E. destruct (IHl s1 W1 R1 H3) as [s2 [E2 [V2 [W2 [R2 P2]]]]].
+    exists s2. split; [exact E2|]. repeat split; try assumption; try apply W2.
+    + rewrite V2, V1, app_assoc. reflexivity.
+    + rewrite P2, P1, app_length, Nat2Z.inj_add. change (Z.to_nat 8) with 8%nat. lia.
+Qed.
+Lemma w_bytes_writes n (l : list Z) s : w_wf s -> w_rem s = None -> Z.of_nat (length l) <= n ->
+  Forall (fun b => 0 <= b < 256) l ->
+  w_writes (w_write_bytes n l s) s (flat_map (nbits_list 8) (bytes_padded n l)) /\
+  Z.of_nat (length (bytes_padded n l)) = n.
+Proof.
+  intros W R H F. unfold w_write_bytes. destruct (Z.of_nat (length l) >? n) eqn:E; [lia|].
+  split.
+  - apply w_each_byte_writes; try assumption. unfold bytes_padded. apply Forall_app. split; [assumption|].
+    apply Forall_forall. intros x Hx. apply repeat_spec in Hx. lia.
+  - unfold bytes_padded. rewrite app_length, repeat_length. lia.
+Qed.
+
+(* out-of-range values: OutOfRangeError, state (file, position, counters) untouched *)
+Lemma w_nbits_out_of_range n v s : v < 0 \/ 2 ^ n <= v -> w_write_nbits n v s = (s, Some EOutOfRange).
+Proof.
+  intros H. unfold w_write_nbits. apply nbits_out_of_range in H. rewrite H. reflexivity.
+Qed.
+Lemma w_uint_out_of_range v s : v < 0 -> w_write_uint v s = (s, Some EOutOfRange).
+Proof. intros H. unfold w_write_uint. destruct (v <? 0) eqn:E; [reflexivity|lia]. Qed.
+Lemma w_bitarray_out_of_range n l s : n < Z.of_nat (length l) -> w_write_bitarray n l s = (s, Some EOutOfRange).
+Proof. intros H. unfold w_write_bitarray. destruct (Z.of_nat (length l) >? n) eqn:E; [reflexivity|lia]. Qed.
+Lemma w_bytes_out_of_range n l s : n < Z.of_nat (length l) -> w_write_bytes n l s = (s, Some EOutOfRange).
+Proof. intros H. unfold w_write_bytes. destruct (Z.of_nat (length l) >? n) eqn:E; [reflexivity|lia]. Qed.
+Lemma w_uint_lit_out_of_range n v s : v < 0 \/ 2 ^ (n * 8) <= v -> w_write_uint_lit n v s = (s, Some EOutOfRange).
+Proof. apply w_nbits_out_of_range. Qed.
+
+(* what a write-only writer leaves in the file is what a reader opened on it sees *)
+Lemma w_init_wf : w_wf (w_init [] 0) /\ w_view (w_init [] 0) = [] /\ w_rem (w_init [] 0) = None.
+Proof. unfold w_wf, w_init, w_view. cbn. repeat split; lia. Qed.
+
+Definition low_bits_zero (s : wst) : Prop := forall i, 0 <= i <= w_nb s -> Z.testbit (w_cur s) i = false.
+
+Lemma r_init_view f : r_view (r_init f 0) = bytes_bits f.
+Proof.
+  unfold r_init, r_read_byte, r_view. cbn [r_nb r_off r_cur r_file r_rem].
+  destruct f as [|c f]; [reflexivity|]. cbn. reflexivity.
+Qed.
+Lemma d_init_view f : d_view (d_init f 0) = bytes_bits f.
+Proof.
+  unfold d_init, d_read_byte, d_view. cbn [d_nb d_pos d_cur d_file d_left d_rec].
+  destruct f as [|c f]; [reflexivity|]. cbn. reflexivity.
+Qed.
+
+Lemma firstn_all_z (f : list Z) pos : pos = flen f -> firstn (Z.to_nat pos) f = f.
+Proof. intros ->. unfold flen. rewrite Nat2Z.id. apply firstn_all. Qed.
+
+Lemma nbits_list_split a k x :
+  nbits_list (a + k) x = nbits_list a (Z.shiftr x (Z.of_nat k)) ++ nbits_list k x.
+Proof.
+  induction a; [reflexivity|]. cbn [plus nbits_list app]. rewrite IHa. f_equal.
+  rewrite Z.shiftr_spec by lia. f_equal. lia.
+Qed.
+
+Lemma flushed_file_view s : w_wf s -> w_pos s = flen (w_file s) ->
+  exists pad, bytes_bits (w_file (w_flush s)) = w_view s ++ pad /\ (length pad < 8)%nat /\
+              (low_bits_zero s -> Forall (fun b => b = false) pad).
+Proof.
+  destruct s as [f pos nb cur rem]. unfold w_wf, w_flush, w_view, low_bits_zero. cbn [w_file w_pos w_nb w_cur w_rem].
+  intros [Hnb Hpos] Hend. destruct (nb =? 7) eqn:E.
+  - assert (nb = 7) by lia. subst nb. exists []. cbn [w_file]. change (Z.to_nat (7 - 7)) with 0%nat. cbn [nbits_list].
+    rewrite firstn_all_z by assumption. rewrite !app_nil_r. repeat split; [cbn; lia|constructor].
+  - cbn [w_file]. exists (nbits_list (Z.to_nat (nb + 1)) cur).
+    rewrite nbits_list_length. split; [|split; [lia|]].
+    + unfold fwrite. destruct (pos <=? flen f) eqn:E2; [|lia].
+      rewrite firstn_all_z by assumption. rewrite skipn_all2 by (unfold flen in *; lia).
+      rewrite bytes_bits_app. rewrite <- app_assoc. f_equal. unfold bytes_bits. cbn [flat_map]. rewrite app_nil_r.
+      unfold bits8. replace 8%nat with (Z.to_nat (7 - nb) + Z.to_nat (nb + 1))%nat by lia.
+      rewrite nbits_list_split. rewrite Z2Nat.id by lia. reflexivity.
+    + intros Hz. apply Forall_forall. intros x Hx.
+      assert (G : forall k, (k <= Z.to_nat (nb + 1))%nat -> forall y, In y (nbits_list k cur) -> y = false).
+      { induction k; intros Hk y Hy; cbn in Hy; [contradiction|]. destruct Hy as [<-|Hy]; [apply Hz; lia|apply IHk; [lia|assumption]]. }
+      eapply G; [apply Nat.le_refl|exact Hx].
+Qed.
+
+(* ------------------------------------------------------------ uint_lit *)
+Lemma r_uint_lit_roundtrip n v s rest : r_wf s -> r_rem s = None -> 0 <= n -> 0 <= v < 2 ^ (n * 8) ->
+  r_view s = nbits_list (Z.to_nat (n * 8)) v ++ rest ->
+  r_reads (r_read_uint_lit n s) s v (Z.to_nat (n * 8)) rest.
+Proof. intros. unfold r_read_uint_lit. apply r_nbits_roundtrip; try assumption; lia. Qed.
+Lemma d_uint_lit_roundtrip n v s rest : d_wf s -> 0 <= n -> 0 <= v < 2 ^ (n * 8) ->
+  d_view s = nbits_list (Z.to_nat (n * 8)) v ++ rest ->
+  d_reads (d_read_uint_lit n s) s v (Z.to_nat (n * 8)) rest.
+Proof.
+  intros W Hn Hv V. unfold d_read_uint_lit. replace (8 * n) with (n * 8) by lia.
+  apply d_nbits_roundtrip; try assumption; lia.
+Qed.
+Lemma w_uint_lit_writes n v s : w_wf s -> w_rem s = None -> 0 <= n -> 0 <= v < 2 ^ (n * 8) ->
+  w_writes (w_write_uint_lit n v s) s (nbits_list (Z.to_nat (n * 8)) v).
+Proof. intros. unfold w_write_uint_lit. apply w_nbits_writes; try assumption; lia. Qed.
+
+(* ------------------------------------------------------------ tell / seek *)
+Lemma offsets_inverse bytes bits : 0 <= bits <= 7 ->
+  from_bit_offset (to_bit_offset bytes bits) = (bytes, bits).
+Proof. intros H. unfold from_bit_offset, to_bit_offset. f_equal; lia. Qed.
+Lemma offsets_inverse' t : let '(by_, bi) := from_bit_offset t in to_bit_offset by_ bi = t /\ 0 <= bi <= 7.
+Proof. unfold from_bit_offset, to_bit_offset. lia. Qed.
+
+(* the position where the current bounded block ends is invariant under seek *)
+Lemma seek_adjust_law r cur new :
+  match seek_adjust (Some r) cur new with
+  | Ok (Some r') => new + Z.max 0 r' = cur + Z.max 0 r
+  | Ok None => False
+  | Err e => e = EExc /\ cur < new /\ cur + r < new
+  end.
+Proof.
+  unfold seek_adjust.
+  destruct ((new - cur >? 0) && (r - (new - cur) <? 0)) eqn:E1; [split; [reflexivity|lia]|].
+  destruct ((r <=? 0) && (new - cur =? 0)) eqn:E2; [lia|].
+  destruct ((r <? 0) && (new - cur <? 0)) eqn:E3; lia.
+Qed.
+Lemma seek_adjust_none cur new : seek_adjust None cur new = Ok None.
+Proof. reflexivity. Qed.
+
+(* BitstreamReader: the extra invariant that current_byte is the byte before _byte_offset *)
+Definition r_sync (s : rst) : Prop := r_cur s = nth_z (r_file s) (r_off s - 1) /\ 1 <= r_off s.
+
+Lemma r_init_sync f : r_sync (r_init f 0) /\ r_wf (r_init f 0).
+Proof. unfold r_sync, r_wf, r_init, r_read_byte. cbn. repeat split; lia. Qed.
+
+Lemma r_seek_tell_id s : r_wf s -> r_sync s ->
+  r_seek (fst (r_tell s)) (snd (r_tell s)) s = (s, None).
+Proof.
+  destruct s as [f off nb cur rem]. unfold r_wf, r_sync, r_seek, r_tell, r_bitpos.
+  cbn [r_nb r_off r_cur r_file r_rem fst snd]. intros [Hnb Hoff] [Hc Ho].
+  destruct ((0 <=? nb) && (nb <=? 7)) eqn:E; [|lia]. cbn [negb].
+  assert (A : seek_adjust rem (to_bit_offset (off - 1) nb) (to_bit_offset (off - 1) nb) = Ok rem).
+  { destruct rem as [r|]; [|reflexivity]. unfold seek_adjust.
+    replace (to_bit_offset (off - 1) nb - to_bit_offset (off - 1) nb) with 0 by lia.
+    cbn [Z.gtb Z.compare andb]. destruct (r <=? 0) eqn:E1; cbn [andb Z.eqb]; [reflexivity|].
+    rewrite andb_false_r. f_equal. f_equal. lia. }
+  rewrite A. destruct (off - 1 <? 0) eqn:E2; [lia|].
+  replace (off - 1 + 1) with off by lia. rewrite <- Hc. reflexivity.
+Qed.
+
+Lemma skipn_bytes_bits n f : skipn (8 * n) (bytes_bits f) = bytes_bits (skipn n f).
+Proof.
+  revert f. induction n; intros f; [reflexivity|]. destruct f as [|c f]; [reflexivity|].
+  cbn [skipn]. change (bytes_bits (c :: f)) with (bits8 c ++ bytes_bits f).
+  rewrite skipn_app. unfold bits8 at 1 2. rewrite nbits_list_length.
+  rewrite skipn_all2 by (rewrite nbits_list_length; lia).
+  replace (8 * S n - 8)%nat with (8 * n)%nat by lia. cbn [app]. apply IHn.
+Qed.
+
+Lemma skipn_add {A} a b (l : list A) : skipn (a + b) l = skipn b (skipn a l).
+Proof.
+  revert l. induction a; intros l; [reflexivity|]. destruct l; cbn [plus skipn]; [destruct b; reflexivity|apply IHa].
+Qed.
+
+Lemma skipn_nbits_list a k x : skipn a (nbits_list (a + k) x) = nbits_list k x.
+Proof. rewrite nbits_list_split. rewrite skipn_app, nbits_list_length, Nat.sub_diag, skipn_all2 by (rewrite nbits_list_length; lia). reflexivity. Qed.
+
+(* after a successful seek (outside a block) tell() is the target and the reader sees the file from that bit on *)
+Lemma r_seek_spec bytes bits s : r_rem s = None -> 0 <= bytes -> 0 <= bits <= 7 ->
+  exists s', r_seek bytes bits s = (s', None) /\ r_tell s' = (bytes, bits) /\ r_wf s' /\ r_sync s' /\ r_rem s' = None /\
+             r_file s' = r_file s /\
+             r_view s' = skipn (Z.to_nat (to_bit_offset bytes bits)) (bytes_bits (r_file s)).
+Proof.
+  intros R Hb Hbi. unfold r_seek. rewrite R. cbn [seek_adjust].
+  destruct ((0 <=? bits) && (bits <=? 7)) eqn:E; [|lia]. cbn [negb].
+  destruct (bytes <? 0) eqn:E2; [lia|].
+  eexists. split; [reflexivity|]. unfold r_tell, r_wf, r_sync, r_view. cbn [r_nb r_off r_cur r_file r_rem].
+  replace (bytes + 1 - 1) with bytes by lia.
+  repeat split; try lia.
+  unfold to_bit_offset.
+  replace (Z.to_nat (bytes * 8 + (7 - bits))) with (8 * Z.to_nat bytes + Z.to_nat (7 - bits))%nat by lia.
+  rewrite skipn_add, skipn_bytes_bits.
+  destruct (nth_z (r_file s) bytes) as [c|] eqn:En.
+  - rewrite (nth_z_some _ _ _ Hb En). cbn [bytes_bits flat_map]. rewrite skipn_app.
+    unfold bits8. replace 8%nat with (Z.to_nat (7 - bits) + Z.to_nat (bits + 1))%nat at 1 2 by lia.
+    rewrite skipn_nbits_list. rewrite nbits_list_length.
+    replace (Z.to_nat (7 - bits) - (Z.to_nat (7 - bits) + Z.to_nat (bits + 1)))%nat with 0%nat by lia.
+    reflexivity.
+  - rewrite (nth_z_none _ _ Hb En). cbn. rewrite skipn_nil. reflexivity.
+Qed.
+
+(* inside a block: seek keeps the position of the block's end, or refuses to go past it *)
+Lemma r_seek_block bytes bits s k : r_rem s = Some k -> 0 <= bytes -> 0 <= bits <= 7 ->
+  match r_seek bytes bits s with
+  | (s', None) => exists k', r_rem s' = Some k' /\ r_tell s' = (bytes, bits) /\
+                             r_bitpos s' + Z.max 0 k' = r_bitpos s + Z.max 0 k
+  | (s', Some e) => s' = s /\ e = EExc /\ r_bitpos s + k < to_bit_offset bytes bits /\ r_bitpos s < to_bit_offset bytes bits
+  end.
+Proof.
+  intros R Hb Hbi. unfold r_seek. rewrite R.
+  destruct ((0 <=? bits) && (bits <=? 7)) eqn:E; [|lia]. cbn [negb].
+  pose proof (seek_adjust_law k (r_bitpos s) (to_bit_offset bytes bits)) as L.
+  destruct (seek_adjust (Some k) (r_bitpos s) (to_bit_offset bytes bits)) as [[k'|]|e]; [| contradiction |].
+  - destruct (bytes <? 0) eqn:E2; [lia|]. exists k'. unfold r_tell, r_bitpos. cbn [r_nb r_off r_cur r_file r_rem].
+    replace (bytes + 1 - 1) with bytes by lia. repeat split; try reflexivity. exact L.
+  - destruct L as [-> [L1 L2]]. repeat split; lia.
+Qed.
+
+Lemma w_seek_block bytes bits s k : w_rem s = Some k -> 0 <= bytes -> 0 <= bits <= 7 ->
+  match w_seek bytes bits s with
+  | (s', None) => exists k', w_rem s' = Some k' /\ w_tell s' = (bytes, bits) /\
+                             w_bitpos s' + Z.max 0 k' = w_bitpos s + Z.max 0 k
+  | (s', Some e) => s' = s /\ e = EExc /\ w_bitpos s + k < to_bit_offset bytes bits /\ w_bitpos s < to_bit_offset bytes bits
+  end.
+Proof.
+  intros R Hb Hbi. unfold w_seek. rewrite R.
+  destruct ((0 <=? bits) && (bits <=? 7)) eqn:E; [|lia]. cbn [negb].
+  pose proof (seek_adjust_law k (w_bitpos s) (to_bit_offset bytes bits)) as L.
+  destruct (seek_adjust (Some k) (w_bitpos s) (to_bit_offset bytes bits)) as [[k'|]|e]; [| contradiction |].
+  - destruct (bytes <? 0) eqn:E2; [lia|]. exists k'. unfold w_tell, w_bitpos. cbn [w_nb w_pos w_rem].
+    repeat split; try reflexivity. exact L.
+  - destruct L as [-> [L1 L2]]. repeat split; lia.
+Qed.
+Lemma w_seek_tell bytes bits s : w_rem s = None -> 0 <= bytes -> 0 <= bits <= 7 ->
+  exists s', w_seek bytes bits s = (s', None) /\ w_tell s' = (bytes, bits) /\ w_rem s' = None /\
+             w_file s' = w_file (w_flush s).
+Proof.
+  intros R Hb Hbi. unfold w_seek. rewrite R. cbn [seek_adjust].
+  destruct ((0 <=? bits) && (bits <=? 7)) eqn:E; [|lia]. cbn [negb].
+  destruct (bytes <? 0) eqn:E2; [lia|].
+  eexists. split; [reflexivity|]. unfold w_tell. cbn [w_nb w_pos w_rem w_file]. repeat split.
+  f_equal. destruct s; unfold w_set_rem; cbn in *; subst; reflexivity.
+Qed.
+
 Lemma exp_golomb_length_dom_ok v : 0 <= v -> exp_golomb_length_dom v = true.
 Proof. intros H. unfold exp_golomb_length_dom. destruct (v <? 0) eqn:E; [lia|reflexivity]. Qed.
 Lemma signed_exp_golomb_length_dom_ok v : signed_exp_golomb_length_dom v = true.
@@ -845,3 +1240,25 @@ Qed.
 Lemma d_block_lengths_nonneg n s s' y left :
   d_read_nbits n s = (s', Ok y) -> (y >? left) = false -> 0 <= y /\ 0 <= left - y.
 Proof. intros H G. pose proof (d_read_nbits_nonneg n s s' y H). lia. Qed.
+
+Lemma flushed_file_reader_view s : w_wf s -> w_pos s = flen (w_file s) ->
+  exists pad, r_view (r_init (w_file (w_flush s)) 0) = w_view s ++ pad /\
+              d_view (d_init (w_file (w_flush s)) 0) = w_view s ++ pad /\ (length pad < 8)%nat /\
+              (low_bits_zero s -> Forall (fun b => b = false) pad).
+Proof.
+  intros W E. destruct (flushed_file_view s W E) as [pad [A [B C]]].
+  exists pad. rewrite r_init_view, d_init_view. auto.
+Qed.
+
+Lemma uint_lit_roundtrip n v : 0 <= n -> 0 <= v < 2 ^ (n * 8) ->
+  (forall s, w_wf s -> w_rem s = None -> w_writes (w_write_uint_lit n v s) s (nbits_list (Z.to_nat (n * 8)) v)) /\
+  (forall s rest, r_wf s -> r_rem s = None -> r_view s = nbits_list (Z.to_nat (n * 8)) v ++ rest ->
+                  r_reads (r_read_uint_lit n s) s v (Z.to_nat (n * 8)) rest) /\
+  (forall s rest, d_wf s -> d_view s = nbits_list (Z.to_nat (n * 8)) v ++ rest ->
+                  d_reads (d_read_uint_lit n s) s v (Z.to_nat (n * 8)) rest).
+Proof.
+  intros Hn Hv. repeat split; intros.
+  - apply w_uint_lit_writes; assumption.
+  - apply r_uint_lit_roundtrip; assumption.
+  - apply d_uint_lit_roundtrip; assumption.
+Qed.
